@@ -206,8 +206,8 @@ pub struct KeyId(String);
 impl KeyId {
     /// Return the first 8 hex digits of the key id
     pub fn prefix(&self) -> String {
-        assert!(self.0.len() >= 8);
-        self.0[0..8].to_string()
+        // key ids are not guaranteed to be ASCII: take characters, not bytes
+        self.0.chars().take(8).collect()
     }
 }
 
